@@ -27,7 +27,7 @@ META = {
                    'ordinary exception and interrupt-style termination at every interception step (also inside intercepted '
                    'bodies), crossed with four sampling outcomes (scripted RNG) and storage failing on save; a spy cassette '
                    'counts finalisations and everything found in the cassette afterwards is replayed against a tripwire '
-                   'environment.  Enumeration of fault placements over sampled programs, not a proof. Also: recording switched off mid-operation (as a step and from inside an intercepted body, alone and together with a failing data handler), and input bodies that modify their arguments.'),
+                   'environment.  Enumeration of fault placements over sampled programs, not a proof. Also: two recorders in one process, the operation of one running inside an intercepted input / output body or the operation of the other (each recording finalised once in its own cassette, every saved one replays); recording switched off mid-operation (as a step and from inside an intercepted body, alone and together with a failing data handler), and input bodies that modify their arguments.'),
     'level_note': 'Trusted: spy cassette journal, fault injection in the generated service, the small finalisation model in this file. Single-threaded; one operation at a time.',
     'rule': ('evaluation = one (program, fault placement, sampling outcome) executed with recording enabled, followed by a replay '
              'of every complete recording left in the cassette; non-trivial = a fault / termination fired or sampling was not '
@@ -46,9 +46,112 @@ def run_tape(tape):
         return _run(tape, clock)
 
 
-def _run(tape, clock):
+def two_recorders(tape, clock):
+    """Two recorders in one process, each with its own cassette (two components of one service): an operation recorded by
+    one of them runs inside an intercepted input / output body or inside the operation of the other, or on its own.  Every
+    recording is finalised exactly once in its own cassette and every complete saved recording replays."""
+    from playback.tape_cassettes.in_memory.in_memory_tape_cassette import InMemoryTapeCassette
     run = Run(PROP)
-    mode = tape.draw(3)
+    run.probe('two_recorders_in_one_process')
+    where = ['input_body', 'output_body', 'operation_body', 'direct'][tape.draw(4)]
+    x_on = tape.draw(3) != 2
+    curs = ['c%d' % tape.draw(3) * (1 + tape.draw(2)) for _ in range(1 + tape.draw(3))]
+    x_first = tape.draw(2) == 1
+    store = C.gen_store(tape, clock)
+    run.say('two recorders: inner operation runs in %s of the outer one; outer recording %s; calls %s; cassette of the inner %s'
+            % (where, 'on' if x_on else 'off', curs, store.describe()))
+    run.ev('case2', where, x_on, curs, x_first, store.describe())
+    try:
+        spy_x, spy_y = R.SpyCassette(InMemoryTapeCassette(), run), R.SpyCassette(store.open(), run)
+        rec_x, rec_y = (TapeRecorder(spy_x), TapeRecorder(spy_y)) if x_first else tuple(reversed((TapeRecorder(spy_y), TapeRecorder(spy_x))))
+        rec_y.enable_recording()
+        if x_on:
+            rec_x.enable_recording()
+        journal, world = [], {'k': 1}
+
+        class Pricing(object):
+            @rec_y.operation()
+            def execute(self, cur):
+                r = self.load_rate(cur)
+                return ['priced', cur, r, self.publish(cur, r * 2)]
+
+            @rec_y.intercept_input('load_rate')
+            def load_rate(self, cur):
+                journal.append(('load_rate', cur))
+                return world['k'] * len(cur) + 0.5
+
+            @rec_y.intercept_output('publish')
+            def publish(self, cur, v):
+                journal.append(('publish', cur, v))
+                return 'ack-%s-%s' % (cur, world['k'])
+
+        class Gateway(object):
+            @rec_x.operation()
+            def execute(self, cs):
+                if where == 'input_body':
+                    return [self.fetch_quote(c) for c in cs]
+                if where == 'output_body':
+                    return [self.send(c) for c in cs]
+                return [Pricing().execute(c) for c in cs]
+
+            @rec_x.intercept_input('fetch_quote')
+            def fetch_quote(self, c):
+                return Pricing().execute(c)
+
+            @rec_x.intercept_output('send')
+            def send(self, c):
+                return Pricing().execute(c)
+        R.D.register('Pricing', Pricing)
+        R.D.register('Gateway', Gateway)
+        live = [Pricing().execute(c) for c in curs] if where == 'direct' else Gateway().execute(curs)
+        run.ev('live', live, len(journal))
+        run.check(len(journal) == 2 * len(curs), 'finalised_exactly_once', 'two-recorders:bodies-not-run-once',
+                  lambda: 'bodies executed while recording: %s' % journal)
+        for name, spy, n in (('inner', spy_y, len(curs)), ('outer', spy_x, 1 if (x_on and where != 'direct') else 0)):
+            calls = spy.mutations()
+            creates = [c[1] for c in calls if c[0] == 'create']
+            run.check(len(creates) == n, 'finalised_exactly_once', 'two-recorders:create-count:' + name,
+                      lambda: '%s recorder: expected %d recordings, cassette saw %s' % (name, n, calls))
+            for rid in creates:
+                fin = [c[0] for c in calls if c[1] == rid and c[0] in ('save', 'abort')]
+                run.check(fin == ['save'], 'finalised_exactly_once', 'two-recorders:finalised-%s:%s' % ('+'.join(fin) or 'never', name),
+                          lambda: '%s recorder: recording %s finalised %s (calls %s)' % (name, rid, fin or 'never', calls))
+        world['k'] = 7        # the world moves on: a replay that runs a body is seen in the journal and in the result
+        plans = [(rec_y, spy_y, [(lambda c: (lambda r_: Pricing().execute(c)))(c) for c in curs], 'inner')]
+        if where in ('input_body', 'output_body'):
+            plans.append((rec_x, spy_x, [lambda r_: Gateway().execute(curs)], 'outer'))
+        for recorder, spy, funcs, name in plans:
+            rids = [c[1] for c in spy.mutations() if c[0] == 'save']
+            for rid, fn in zip(rids, funcs):
+                if spy.inner.get_recording(rid).get_metadata().get(TapeRecorder.INCOMPLETE_RECORDING):
+                    run.violate('incomplete_only_when_interrupted', 'two-recorders:incomplete-flag-on-finished-run:' + name,
+                                '%s recording %s flagged incomplete although its operation returned' % (name, rid))
+                    continue
+                del journal[:]
+                try:
+                    pb = recorder.play(rid, fn)
+                except RecordingKeyError as ex:
+                    run.violate('saved_recording_replays', 'two-recorders:replay-raised:RecordingKeyError:' + name,
+                                'saved complete %s recording %s failed to replay on unchanged code: %r' % (name, rid, ex))
+                    continue
+                run.probe('replayed_saved_recording')
+                run.check(not journal, 'saved_recording_replays', 'two-recorders:body-executed-in-replay:' + name,
+                          lambda: 'replay of the saved %s recording executed bodies %s' % (name, journal[:3]))
+                a = sorted((o.key, V.srepr(o.value)) for o in pb.recorded_outputs)
+                b = sorted((o.key, V.srepr(o.value)) for o in pb.playback_outputs)
+                run.check(a == b, 'saved_recording_replays', 'two-recorders:replay-result-differs:' + name,
+                          lambda: 'recorded %s, replayed %s' % (a, b))
+        run.nontrivial = True
+    finally:
+        store.close()
+    return run
+
+
+def _run(tape, clock):
+    mode = tape.draw(4)
+    if mode == 3:
+        return two_recorders(tape, clock)
+    run = Run(PROP)
     pos = tape.draw(4096)
     kind_raw = tape.draw(64)
     samp = SAMPLING[tape.draw(len(SAMPLING))]
@@ -207,6 +310,9 @@ def run_index(i, seed, tier, emit):
             for s in range(len(SAMPLING)):
                 t = Tape(seed, prefix=[1, pos, k, s])
                 emit(safe_run_tape(mod, t), t)
+    for n in range(4 if tier == 'quick' else 16):
+        t = Tape(seed, prefix=[3, n % 4, (n // 4) % 3])
+        emit(safe_run_tape(mod, t), t)
     for n in range(8 if tier == 'quick' else 30):
         t = Tape(seed, prefix=[2, (n * 7919 + seed) % 4096, (n * 31 + seed // 7) % 64, n % 4,
                                (n * 104729 + seed // 3) % 4096, (n * 17 + seed // 11) % 64])
